@@ -13,6 +13,17 @@ type fnInfo struct {
 	ipdom      []int  // immediate post-dominator block index, -1 = function exit
 	loopHeader []bool // block is the target of a back edge
 	hasDefer   bool
+	outerLoops []int // block indices of outermost loop headers, in block order
+}
+
+// outerLoopIndex returns the ordinal of an outermost loop header, or -1.
+func (fi *fnInfo) outerLoopIndex(b int) int {
+	for i, h := range fi.outerLoops {
+		if h == b {
+			return i
+		}
+	}
+	return -1
 }
 
 var fnInfoCache sync.Map // *ssa.Function -> *fnInfo
@@ -104,11 +115,42 @@ func computeFnInfo(fn *ssa.Function) *fnInfo {
 		}
 		fi.ipdom[i] = best
 	}
+	// natural loop bodies: for back edge b->h, all blocks that reach b without passing h
+	inLoop := map[int]map[int]bool{}
 	for _, b := range fn.Blocks {
 		for _, s := range b.Succs {
 			if s.Dominates(b) {
 				fi.loopHeader[s.Index] = true
+				body := inLoop[s.Index]
+				if body == nil {
+					body = map[int]bool{s.Index: true}
+					inLoop[s.Index] = body
+				}
+				stack := []*ssa.BasicBlock{b}
+				for len(stack) > 0 {
+					x := stack[len(stack)-1]
+					stack = stack[:len(stack)-1]
+					if body[x.Index] {
+						continue
+					}
+					body[x.Index] = true
+					stack = append(stack, x.Preds...)
+				}
 			}
+		}
+	}
+	for h := 0; h < n; h++ {
+		if !fi.loopHeader[h] {
+			continue
+		}
+		outer := true
+		for h2, body := range inLoop {
+			if h2 != h && body[h] {
+				outer = false
+			}
+		}
+		if outer {
+			fi.outerLoops = append(fi.outerLoops, h)
 		}
 	}
 	return fi
